@@ -908,26 +908,37 @@ class Unit:
 
     def __rtruediv__(self, other: Any) -> Quantity:
         """other / self"""
+        # The resulting quantity may get quantized. Therefore we
+        # have to calculate the final amount before creating the result!
         if isinstance(other, Rational):
-            return other * self ** -1
+            amnt, unit = self._pow(-1)
+            return (other * amnt) * unit
         if isinstance(other, Real):
-            return Decimal(other) * self ** -1
+            amnt, unit = self._pow(-1)
+            return (Decimal(other) * amnt) * unit
         return NotImplemented
+
+    def _pow(self, exp: int) -> Tuple[Rational, Unit]:
+        """Return amount a and unit u so that a * u == self ** exp."""
+        if exp == 1:
+            return ONE, self
+        res_def = UnitDefT(((self, exp),))
+        try:
+            amnt, unit = _amnt_and_unit_from_term(res_def)
+        except KeyError:
+            raise UndefinedResultError(operator.pow,
+                                       self._qty_cls.__name__, exp) \
+                from None
+        assert unit is not None
+        return amnt, unit
 
     def __pow__(self, exp: Any) -> Union[Quantity, Rational]:
         """self ** exp"""
         if isinstance(exp, int):
             if exp == 0:
                 return ONE
-            if exp == 1:
-                return self._qty_cls(ONE, self)
-            res_def = UnitDefT(((self, exp),))
-            try:
-                return _qty_from_term(res_def)  # type: ignore
-            except KeyError:
-                raise UndefinedResultError(operator.pow,
-                                           self._qty_cls.__name__, exp) \
-                    from None
+            amnt, unit = self._pow(exp)
+            return amnt * unit
         return NotImplemented
 
     def __repr__(self) -> str:
@@ -1716,17 +1727,29 @@ class Quantity(metaclass=QuantityMeta):
 
     def __rtruediv__(self, other: Any) -> Quantity:
         """other / self"""
+        # The resulting quantity may get quantized. Therefore we
+        # have to calculate the final amount before creating the result!
         if isinstance(other, Rational):
-            return (other / self.amount) * self.unit ** -1
+            # noinspection PyProtectedMember
+            amnt, unit = self.unit._pow(-1)
+            return (other / self.amount * amnt) * unit
         if isinstance(other, Real):
-            return (Decimal(other) / self.amount) * self.unit ** -1
+            # noinspection PyProtectedMember
+            amnt, unit = self.unit._pow(-1)
+            return (Decimal(other) / self.amount * amnt) * unit
         return NotImplemented
 
     def __pow__(self, exp: int) -> Quantity:
         """self ** exp"""
         if not isinstance(exp, int):
             return NotImplemented
-        return self.amount ** exp * self.unit ** exp
+        if exp == 0:
+            return self.amount ** exp * ONE
+        # The resulting quantity may get quantized. Therefore we
+        # have to calculate the final amount before creating the result!
+        # noinspection PyProtectedMember
+        amnt, unit = self.unit._pow(exp)
+        return (self.amount ** exp * amnt) * unit
 
     def __round__(self: Q, n_digits: int = 0) -> Q:
         """Return copy of `self` with its amount rounded to `n_digits`.
